@@ -550,8 +550,16 @@ func runIndex(ops SL) Result {
 					d.Finish(batch)
 					lastID = d.LastID()
 				}
+				_, _, before := dumpDB(db)
 				if err := batch.Write(); err != nil {
 					panic("hxlib: batch write failed")
+				}
+				_, _, after := dumpDB(db)
+				if len(after) > len(before) {
+					tags["rotated-block"] = true
+				}
+				if len(after) < len(before) {
+					tags["dropped-block"] = true
 				}
 				if !poisoned && lastID != last(ref) {
 					orc.failf("lastID %d after the session, reference last %d", lastID, last(ref))
@@ -734,9 +742,13 @@ func run(c Sx) Result {
 
 // ---------------------------------------------------------------- generator
 // next id above cur with a delta whose uvarint length varies (1..9 bytes)
+var dense7 bool // generator mode: every delta takes 7 uvarint bytes (about 585 ids per 4096-byte block)
+
 func nextID(r *Rng, cur uint64, big bool) uint64 {
 	var d uint64
 	switch {
+	case dense7:
+		d = 1<<42 + r.U64()>>16 // in [2^42, 2^48 + 2^42)
 	case big && r.Chance(1, 3):
 		d = 1 + r.U64()>>uint(8+r.Intn(50))
 	case r.Chance(1, 6):
@@ -904,9 +916,15 @@ func genIndex(r *Rng) Sx {
 		return ref[len(ref)-1]
 	}
 	big := r.Chance(1, 2)
+	dense7 = r.Chance(2, 3)
+	defer func() { dense7 = false }()
 	steps := r.Range(3, 14)
 	for s := 0; s < steps; s++ {
-		switch k := r.Intn(20); {
+		k := r.Intn(20)
+		if s == 0 {
+			k = 0 // start by filling blocks
+		}
+		switch {
 		case k < 7: // write session
 			limit := uint64(math.MaxUint64)
 			if r.Chance(1, 4) {
@@ -927,6 +945,9 @@ func genIndex(r *Rng) Sx {
 				n = r.Range(400, 1500) // fills blocks
 			case 1:
 				n = r.Range(100, 600)
+			}
+			if s == 0 {
+				n = r.Range(500, 1400)
 			}
 			if trim && n == 0 {
 				n = 1
@@ -968,6 +989,8 @@ func genIndex(r *Rng) Sx {
 				n = r.Range(300, 1200)
 			case 1:
 				n = len(kept) + r.Intn(2)
+			case 2:
+				n = r.Intn(len(kept) + 1)
 			}
 			var l []uint64
 			cur := kept
@@ -1117,7 +1140,7 @@ func genBadStore(r *Rng) Sx {
 }
 
 func gen(r *Rng, tier string, emit func(Sx)) {
-	nBlock, nLong, nIndex, nBad, nBadStore := 400, 30, 40, 500, 60
+	nBlock, nLong, nIndex, nBad, nBadStore := 350, 25, 30, 500, 60
 	if tier == "thorough" {
 		nBlock, nLong, nIndex, nBad, nBadStore = 8000, 600, 800, 10000, 1200
 	}
